@@ -99,4 +99,13 @@ theorem unmarshalCase_spec (hb : Option HelperBeh) (c : Case)
     · simp
   · simp
 
+/-! ## hooks that edit the case: the operational reading (`XCase.eff`) is the declarative one (`XCase.completed`) -/
+
+theorem eff_eq_completed (x : XCase) : x.eff = x.completed := by
+  obtain ⟨⟨c, hbf, haf, p, m, u, d, v⟩, ⟨bd, bv, bp, bc⟩, ⟨ad, av, ap, ac⟩⟩ := x
+  cases hbf <;> cases haf <;> cases bd <;> cases bv <;> cases bp <;> cases ad <;> cases ap <;> rfl
+
+theorem completed_constraint (x : XCase) : x.completed.constraint = x.base.constraint := rfl
+
+theorem applicable_completed (h : Helper) (x : XCase) : applicable h x.completed = applicable h x.base := rfl
 end U.TestKit
